@@ -358,3 +358,26 @@ def check_config_copy(ck, rule, only=None):
                        "the copy shares the mutable container `%s` with the original (%s): modifying one Config changes the other"
                        % (f, why), q.loc(fcopy, rebound[f][0] if f in rebound else cn))
 
+
+
+def import_rules(ck, module, mapping):
+    """Run another property's rule module on the same program and adopt the obligations of the listed rules under new
+    rule ids (a clause shared by two properties is decided once, reported under both)."""
+    from vlib import report
+    tmp = report.Check(ck.prog, ck.prop, ck.tier)
+    tmp.analysis_error = None
+    try:
+        module.check(tmp)
+    except AnalysisError as ex:
+        if not any(o["rule"] in mapping for o in tmp.obligations):
+            raise
+    for o in tmp.obligations:
+        if o["rule"] in mapping:
+            if o["ok"]:
+                ck.ok(mapping[o["rule"]], o["construct"], o["fact"], o["loc"])
+            else:
+                path = None
+                for f in tmp.findings:
+                    if f.rule == o["rule"] and f.construct == o["construct"]:
+                        path = f.path
+                ck.bad(mapping[o["rule"]], o["construct"], o["fact"], o["loc"], path)
